@@ -1,6 +1,6 @@
 """C06 - a failing statement has no effect: whenever TurDB returns an error (whether or not the model expects one) the
 complete observation (scan, COUNT(*), every index path) must equal the pre-statement state of the model."""
-import relrun, relational as R
+import relrun, relational as R, vlib
 LEVEL = "model_checking"
 
 
@@ -19,8 +19,10 @@ def signature(d, hist):
     uc = R.upsert_class(hist)
     if uc:
         return "state_changed_by_failed_%s:upsert:%s" % (R.opname(op) if op["k"] == "upsert" else op["k"], uc)
-    if op["k"] == "insert" and len(op["rows"]) > 1:
+    if (op["k"] == "insert" and len(op["rows"]) > 1) or (op["k"] == "bad" and op["b"].startswith("second_row_")):
         return "failed_multi_row_insert_partially_applied"
+    if op["k"] == "bad":
+        return "state_changed_by_failed_%s:%s" % (R.opname(op), ",".join(R.features(hist)) or "-")
     return "state_changed_by_failed_%s:%s" % (R.opname(op) if op["k"] == "upsert" else op["k"], ",".join(R.features(hist)) or "-")
 
 
@@ -81,6 +83,10 @@ def run(chk):
     relrun.standard(chk, relevant, signature, focus=focus)
     chk.cov["upsert"] = relrun.upsert_phase(chk, relevant, signature)
     chk.mark("upsert")
+    chk.cov["wrong_statements"] = relrun.bad_phase(chk, relevant, signature)
+    if not chk.cov["wrong_statements"]["replayed"]:
+        raise vlib.ToolError("no wrong statement was replayed")
+    chk.mark("wrong_statements")
     autoinc_phase(chk)
 
 
